@@ -19,7 +19,8 @@ SanClass == {"absent", "match", "mismatch"}
 Req == {"none", "yes", "no"}
 
 Inputs == [canTls : BOOLEAN, req : Req, reqHost : BOOLEAN, reqNode : BOOLEAN, passive : BOOLEAN, byName : BOOLEAN,
-           peerCanTls : BOOLEAN, hsOk : BOOLEAN, ip : SanClass, dns : SanClass, node : SanClass]
+           peerCanTls : BOOLEAN, hsOk : BOOLEAN, ip : SanClass, dns : SanClass, node : SanClass,
+           peerRsv : BOOLEAN]     \* the peer's contact header also carries reserved flag bits (to be ignored)
 
 (* ---------------- implementation-shaped: the code ---------------- *)
 CONSTANT Dev
@@ -30,7 +31,9 @@ vars == <<cfg, outcome>>
 MatchId(hasRef, cls) == IF cls = "absent" THEN "none" ELSE IF hasRef /\ cls = "match" THEN "id" ELSE "false"
 
 Decide(c) ==
-  LET attempt == c.canTls /\ c.peerCanTls
+  LET \* CAN_TLS is one bit of the flags octet; deviation: the whole octet is compared with it
+      peerOffers == c.peerCanTls /\ ~("flags_compared_whole" \in Dev /\ c.peerRsv)
+      attempt == c.canTls /\ peerOffers
       preOK == c.req = "none" \/ ((c.req = "yes") = attempt)
       secure == attempt /\ c.hsOk
       postOK == c.req = "none" \/ ((c.req = "yes") = secure)
